@@ -56,7 +56,12 @@ func (m *verifRM) Fetch(tableName string) ([]*storage.Row, []*storage.Field, err
 	}
 	var rows []*storage.Row
 	for i, r := range t.rows {
-		rows = append(rows, &storage.Row{RowID: uint32(i + 1), Vals: append([]interface{}(nil), r...)})
+		// value by value, like storage.scanRelation: the slices get the same spare capacity
+		row := &storage.Row{RowID: uint32(i + 1)}
+		for _, v := range r {
+			row.Vals = append(row.Vals, v)
+		}
+		rows = append(rows, row)
 	}
 	return rows, fields, nil
 }
